@@ -5,4 +5,6 @@ LEVEL = "proof"
 
 
 def contracts():
-    return smoothing.contracts()
+    from contracts import lemmas
+
+    return smoothing.contracts() + [lemmas.rts_contract()]
